@@ -218,8 +218,9 @@ class SelfCall(E):
     def atomic(self):
         return self.form != "pipe"
 
-    def __init__(self, fn, tag, args, form="direct", callee=None):
+    def __init__(self, fn, tag, args, form="direct", callee=None, k=1):
         self.fn, self.tag, self.args, self.form, self.callee = fn, tag, args, form, callee
+        self.k = k          # pipe form: number of piped components (the tag + k-1 arguments); 1 = scalar
 
     def target(self):
         return self.callee or self.fn
@@ -227,6 +228,10 @@ class SelfCall(E):
     def src(self):
         name = self.target().name
         a = [x.src() for x in self.args]
+        if self.form == "pipe" and self.k > 1:
+            tys = ["int"] + [TUPTY[t] for _, t in self.target().params[:self.k - 1]]
+            return "(%s) : (%s) |> %s(%s)" % (", ".join([str(self.tag)] + a[:self.k - 1]), ", ".join(tys),
+                                              name, ", ".join(a[self.k - 1:]))
         if self.form == "pipe":
             return "%d |> %s(%s)" % (self.tag, name, ", ".join(a))
         if self.form == "paren":
@@ -235,8 +240,13 @@ class SelfCall(E):
 
     def shape(self, cx, path):
         name = self.target().name
-        cx.calls[self.tag] = {"func": cx.func, "path": pstr(path), "form": self.form,
+        cx.calls[self.tag] = {"func": cx.func, "path": pstr(path), "form": self.form + (str(self.k) if self.form == "pipe" else ""),
                               "callee": name}
+        if self.form == "pipe" and self.k > 1:
+            k = self.k
+            tup = "(O L %s)" % " ".join(a.shape(cx, path + [0, i + 1]) for i, a in enumerate(self.args[:k - 1]))
+            return "(P %s (I %d) %s)" % (tup, cx.id(name), " ".join(
+                a.shape(cx, path + [i + 2]) for i, a in enumerate(self.args[k - 1:])))
         if self.form == "pipe":
             return "(P L (I %d) %s)" % (cx.id(name), " ".join(
                 a.shape(cx, path + [i + 2]) for i, a in enumerate(self.args)))
@@ -268,7 +278,7 @@ class SelfCall(E):
         return "{ " + "; ".join(lets + asg + ["0"]) + " }"
 
     def sig(self):
-        return {"direct": "call", "pipe": "pipe", "paren": "parencall"}[self.form]
+        return {"direct": "call", "pipe": "pipe%d" % self.k, "paren": "parencall"}[self.form]
 
 
 def fresh(src, ty):
@@ -526,7 +536,7 @@ class Raw(E):
         self.kind, self.node, self.helper = kind, node, helper
 
     def src(self):
-        n = self.node.src()
+        n = par(self.node, [])[0]
         if self.kind == "plus":
             return "0 + %s" % n
         if self.kind == "arg":
@@ -537,11 +547,11 @@ class Raw(E):
 
     def shape(self, cx, path):
         if self.kind == "plus":
-            return "(O L %s)" % self.node.shape(cx, path + [1])
+            return "(O L %s)" % par(self.node, path + [1])[1](cx)
         if self.kind == "arg":
-            return "(K (I %d) %s)" % (cx.id("idf"), self.node.shape(cx, path + [1]))
+            return "(K (I %d) %s)" % (cx.id("idf"), par(self.node, path + [1])[1](cx))
         if self.kind == "neg":
-            return "(O L (S (O L %s)))" % self.node.shape(cx, path + [1, 0, 1])
+            return "(O L (S (O L %s)))" % par(self.node, path + [1, 0, 1])[1](cx)
         raise ValueError(self.kind)
 
     def ev(self, env):
@@ -553,6 +563,7 @@ class Raw(E):
 
 # ------------------------------------------------------------------ functions and programs
 
+TUPTY = {"int": "int", "float": "float", "string": "string", "rec": "P"}
 TYSRC = {"int": "%s : int", "float": "%s : float", "string": "%s : string", "rec": "%s : P",
          "arr": "%s[D] : int"}
 
@@ -722,6 +733,7 @@ class Gen:
     def __init__(self, rng):
         self.rng = rng
         self.tag = TAG0
+        self.force_pipe = None      # k: every recursive call of the program is a pipe of k components
 
     def newtag(self):
         self.tag += 1
@@ -806,9 +818,22 @@ class Gen:
             c = Bin("==", Bin("%", Var("acc"), Lit(2)), Lit(0))
         return c
 
+    def max_k(self, fn):
+        """the tag plus the leading parameters that can be tuple components"""
+        k = 1
+        for _, t in fn.params:
+            if t not in TUPTY or k >= 4:
+                break
+            k += 1
+        return k
+
     def call(self, fn, local_ints, allow_pipe=True):
-        form = "pipe" if allow_pipe and self.rng.random() < 0.15 else "direct"
-        return SelfCall(fn, self.newtag(), self.args(fn, local_ints), form)
+        form, k = "direct", 1
+        if self.force_pipe is not None:
+            form, k = "pipe", min(self.force_pipe, self.max_k(fn))
+        elif allow_pipe and self.rng.random() < 0.25:
+            form, k = "pipe", self.rng.randint(1, self.max_k(fn))
+        return SelfCall(fn, self.newtag(), self.args(fn, local_ints), form, k=k)
 
     def tail(self, fn, depth, local_ints, forms=None):
         """a tree whose leaves are tail self calls"""
@@ -921,6 +946,9 @@ class Gen:
         fn = FuncSpec("loop", [("n", "int"), ("acc", "int")] + ([("k", "int")] if rng.random() < 0.5 else []))
         p = Program("nontail", "nontail:" + kind)
         call = self.call(fn, [], allow_pipe=False)
+        if kind.endswith("-pipe"):
+            call.form, call.k = "pipe", self.rng.randint(1, self.max_k(fn))
+            kind = kind[:-5]
         if kind in ("plus", "arg", "neg"):
             rest = Raw(kind, call)
         elif kind == "letres":
@@ -967,7 +995,8 @@ class Gen:
         return p
 
 
-NONTAIL_KINDS = ["plus", "arg", "neg", "letres", "cond-operand", "not-last", "parencall", "block-shadow"]
+NONTAIL_KINDS = ["plus", "arg", "neg", "letres", "cond-operand", "not-last", "parencall", "block-shadow",
+                 "plus-pipe", "arg-pipe", "letres-pipe"]
 TAIL_FORMS = ["condq", "condif", "block", "sup", "matchsel", "matchopt", "iflet", "ifletsel"]
 
 
@@ -982,6 +1011,15 @@ def family(seed, n_random):
         progs.append(g.tail_program(forced=[f, "call"], depth=2, nested=True, catches=True))
     progs.append(g.tail_program(forced=["call"], depth=0, nested=False, catches=False))
     progs.append(g.tail_program(forced=["call"], depth=0, nested=True, catches=True))
+    # pipe-form self tail calls: scalar and tuples of 2..4 components, through every propagating form,
+    # with locals before the call (block), at top level and nested
+    for k in (1, 2, 3, 4):
+        g.force_pipe = k
+        for j, f in enumerate(TAIL_FORMS):
+            if (j + k) % 2 == 0:
+                progs.append(g.tail_program(forced=[f, "block", "call"], depth=2, nested=(j % 4 == 1), catches=(j % 3 == 0)))
+        progs.append(g.tail_program(forced=["call"], depth=0, nested=False, catches=False))
+    g.force_pipe = None
     progs.append(g.catch_fires_program())
     for k in NONTAIL_KINDS:
         progs.append(g.nontail_program(k))
